@@ -504,6 +504,15 @@ def parent_main(args):
             cmd += ["--part", args.part]
         logf = open(os.path.join(scratch, "w%d.log" % k), "w")
         procs.append((k, outp, subprocess.Popen(cmd, env=env, stdout=logf, stderr=subprocess.STDOUT), logf))
+    fuzz = getattr(mod, "FUZZ", None)
+    if fuzz and tier == "thorough" and not args.part:
+        for pname in fuzz["parts"]:
+            for k in range(nshards):
+                outp = os.path.join(scratch, "f-%s-%d.json" % (pname, k))
+                cmd = [sys.executable, me, "--prop", prop, "--tier", tier, "--seed", str(seed), "--fuzz", pname,
+                       "--runs", str(max(1, fuzz["runs"] // nshards)), "--worker", str(k), "--out", outp]
+                logf = open(os.path.join(scratch, "f-%s-%d.log" % (pname, k)), "w")
+                procs.append((1000 + k, outp, subprocess.Popen(cmd, env=env, stdout=logf, stderr=subprocess.STDOUT), logf))
     evaluations = 0
     shard_wall = {}
     sigs = set()
@@ -514,8 +523,8 @@ def parent_main(args):
     for k, outp, p, logf in procs:
         rc = p.wait()
         logf.close()
-        if rc != 0 or not os.path.exists(outp):
-            tail = open(os.path.join(scratch, "w%d.log" % k)).read()[-2000:]
+        if (rc != 0 and k < 1000) or not os.path.exists(outp):
+            tail = open(logf.name).read()[-2000:]
             harness_errors.append("worker %d rc=%s: %s" % (k, rc, tail))
             continue
         doc = json.load(open(outp))
@@ -625,6 +634,8 @@ def main(argv=None):
     ap.add_argument("--part")
     ap.add_argument("--out")
     ap.add_argument("--keep", action="store_true")
+    ap.add_argument("--fuzz")
+    ap.add_argument("--runs", type=int, default=20000)
     args = ap.parse_args(argv)
     args.prop = args.prop.upper()
     if os.environ.get("VERIF_CHILD") != "1":
@@ -633,6 +644,9 @@ def main(argv=None):
     try:
         if args.replay:
             return replay_main(args)
+        if args.fuzz:
+            from vlib.fuzz import fuzz_main
+            return fuzz_main(args)
         if args.worker is not None:
             return worker_main(args)
         return parent_main(args)
